@@ -105,14 +105,15 @@ func strsToBytes(l []string) [][]byte {
 func timeAfter(seconds int) <-chan time.Time { return time.After(time.Duration(seconds) * time.Second) }
 
 // newNetworkSimple: a two-level network driver over the simulated transport (prompt "router#").
-func newNetworkSimple(tr *sim.Transport, delay time.Duration) (*network.Driver, error) {
+func newNetworkSimple(tr *sim.Transport, delay time.Duration, extra ...util.Option) (*network.Driver, error) {
 	pl := map[string]*network.PrivilegeLevel{
 		"exec": {Name: "exec", Pattern: `(?im)^[a-z0-9.\-@/:]{1,32}>$`},
 		"privilege-exec": {Name: "privilege-exec", Pattern: `(?im)^[a-z0-9.\-@/:]{1,32}#$`, PreviousPriv: "exec",
 			Escalate: "enable", Deescalate: "disable"},
 	}
-	return network.NewDriver("sim", options.WithCustomTransport(tr), options.WithReadDelay(delay),
-		options.WithTimeoutOps(2*time.Second), options.WithPrivilegeLevels(pl), options.WithDefaultDesiredPriv("privilege-exec"))
+	opts := []util.Option{options.WithCustomTransport(tr), options.WithReadDelay(delay),
+		options.WithTimeoutOps(2 * time.Second), options.WithPrivilegeLevels(pl), options.WithDefaultDesiredPriv("privilege-exec")}
+	return network.NewDriver("sim", append(opts, extra...)...)
 }
 
 // recoverCase turns a panic that escapes into the caller's goroutine while a case runs into a
